@@ -15,6 +15,7 @@ F  LocalBufferGen (real bytes: 21/45-byte records, 4096-byte initial slice, limi
 B  LocalBufferTrace: seeded long runs of the real buffer (14 limits, random extreme field values, growth
    with a partly read buffer) are logged and judged by TLC against the specification.
 """
+import concurrent.futures
 import json
 import os
 import subprocess
@@ -50,8 +51,19 @@ def _traces(r):
     return out
 
 
-def _gen(run, sc, cfg, label, consts=None, **kw):
-    r = vlib.tlc("localbuf", "LocalBufferGen", cfg, scratch=sc, want_traces=False, consts=consts, **kw)
+def _sub(sc, name):
+    d = os.path.join(sc, name)
+    os.makedirs(d, exist_ok=True)
+    return d
+
+
+def _gen_job(sc, cfg, label, consts=None, **kw):
+    kw.setdefault("workers", 4)
+    return vlib.tlc("localbuf", "LocalBufferGen", cfg, scratch=_sub(sc, label), want_traces=False, consts=consts, heap="4g", **kw)
+
+
+def _gen(run, r, label, simulate=False):
+    kw = {"simulate": simulate}
     vlib.expect_tlc_ok(r, label)
     if r.violation:
         raise vlib.MachineryError("%s: generator reports %s" % (label, r.violation))
@@ -95,9 +107,41 @@ def main():
     thorough = run.tier == "thorough"
     vh = vlib.build_vh("localbuf")
     with vlib.Scratch("verif-c23-") as sc:
+        # the TLC jobs (and the driver + trace validation) are independent of each other: run them side by side
+        traces, ops = (14, 15000) if thorough else (3, 10000)
+        tfile = os.path.join(sc, "trace.ndjson")
+
+        def trace_job():
+            with open(tfile, "w") as fh:
+                p = subprocess.run([vh, "localbuf-drive", "-seed", str(run.seed), "-traces", str(traces), "-ops", str(ops)],
+                                   stdout=fh, stderr=subprocess.PIPE, text=True)
+            if p.returncode != 0:
+                raise vlib.MachineryError("localbuf-drive failed: " + p.stderr[-2000:])
+            return vlib.tlc("localbuf", "LocalBufferTrace", "LocalBufferTrace.cfg", workers=1, files={"trace.ndjson": tfile},
+                            scratch=_sub(sc, "trace"), timeout=3000, heap="8g")
+
+        nsim = 150 if thorough else 12
+        jobs = {
+            "mc": lambda: vlib.tlc("localbuf", "LocalBufferMC", "LocalBufferMC.cfg", coverage=True, scratch=_sub(sc, "mc"),
+                                   timeout=900, workers=4, heap="4g", consts="CONSTANT MaxDepth = %d" % (12 if thorough else 8)),
+            "small": lambda: _gen_job(sc, "LocalBufferGenSmall.cfg", "GenSmall", timeout=900,
+                                      consts="CONSTANT Depth = %d" % (6 if thorough else 5)),
+            "edge": lambda: _gen_job(sc, "LocalBufferGenEdge.cfg", "GenEdge", timeout=1200,
+                                     consts="CONSTANT Depth = %d" % (6 if thorough else 4)),
+            "sim": lambda: _gen_job(sc, "LocalBufferGenSim.cfg", "GenSim", timeout=1200, workers=1, simulate=nsim, depth=45,
+                                    seed=run.seed),
+            "trace": trace_job,
+        }
+        if thorough:   # (quick relies on the two binding-level negative controls below)
+            jobs["mcneg"] = lambda: vlib.tlc("localbuf", "LocalBufferMC", "LocalBufferMCNeg.cfg", scratch=_sub(sc, "mcneg"),
+                                             timeout=600, workers=2, heap="2g")
+            jobs["big"] = lambda: _gen_job(sc, "LocalBufferGenEdgeBig.cfg", "GenEdgeBig", timeout=1200)
+        with concurrent.futures.ThreadPoolExecutor(max_workers=len(jobs)) as ex:
+            futs = {k: ex.submit(f) for k, f in jobs.items()}
+            res = {k: f.result() for k, f in futs.items()}
+
         # ------------------------------------------------------------------ M
-        r = vlib.tlc("localbuf", "LocalBufferMC", "LocalBufferMC.cfg", coverage=True, scratch=sc, timeout=900,
-                     consts="CONSTANT MaxDepth = %d" % (12 if thorough else 8))
+        r = res["mc"]
         vlib.expect_tlc_ok(r, "LocalBufferMC")
         if r.violation:
             raise vlib.MachineryError("LocalBuffer design violates %s (spec error, not a code verdict)\n%s"
@@ -107,28 +151,25 @@ def main():
         vlib.require(r.coverage.get("DoNew", (0, 0))[1] > 0, "vacuous: New never taken")
         run.add_tlc(r, "LocalBufferMC")
         run.cov["mc_coverage"] = {a: r.coverage[a][0] for a in MC_ACTIONS}
-        if thorough:   # (quick relies on the two binding-level negative controls below)
-            n = vlib.tlc("localbuf", "LocalBufferMC", "LocalBufferMCNeg.cfg", scratch=sc, timeout=600)
+        if thorough:
+            n = res["mcneg"]
             vlib.require(n.violation == "RefusedOnlyAtLimit",
                          "negative control: a design refusing without growing was not rejected (%s %s)" % (n.violation, n.error))
             run.cov["negative_control_model"] = "design that refuses without growing violates RefusedOnlyAtLimit"
 
         # ------------------------------------------------------------------ F
         behs = []
-        small, fills = _gen(run, sc, "LocalBufferGenSmall.cfg", "GenSmall", timeout=900,
-                            consts="CONSTANT Depth = %d" % (6 if thorough else 5))
+        small, fills = _gen(run, res["small"], "GenSmall")
         vlib.require(len(small) >= 16807, "GenSmall produced too few behaviours (%d)" % len(small))
         behs += small
-        edge, _ = _gen(run, sc, "LocalBufferGenEdge.cfg", "GenEdge", timeout=1200,
-                       consts="CONSTANT Depth = %d" % (6 if thorough else 4))
+        edge, _ = _gen(run, res["edge"], "GenEdge")
         vlib.require(len(edge) > 1000, "GenEdge produced too few behaviours (%d)" % len(edge))
         behs += edge
         if thorough:
-            big, _ = _gen(run, sc, "LocalBufferGenEdgeBig.cfg", "GenEdgeBig", timeout=1200)
+            big, _ = _gen(run, res["big"], "GenEdgeBig")
             vlib.require(len(big) > 1000, "GenEdgeBig produced too few behaviours (%d)" % len(big))
             behs += big
-        nsim = 150 if thorough else 12
-        sim, _ = _gen(run, sc, "LocalBufferGenSim.cfg", "GenSim", timeout=1200, workers=1, simulate=nsim, depth=45, seed=run.seed)
+        sim, _ = _gen(run, res["sim"], "GenSim", simulate=True)
         vlib.require(len(sim) >= nsim, "GenSim produced too few behaviours (%d)" % len(sim))
         behs += sim
         fills_path = os.path.join(sc, "fills.json")
@@ -179,16 +220,8 @@ def main():
         run.cov["negative_control_replay"] = "behaviour with corrupted expected queue rejected (%s)" % nfails[0]["desc"].get("cls")
 
         # ------------------------------------------------------------------ B
-        traces, ops = (14, 15000) if thorough else (3, 10000)
-        tfile = os.path.join(sc, "trace.ndjson")
-        with open(tfile, "w") as fh:
-            p = subprocess.run([vh, "localbuf-drive", "-seed", str(run.seed), "-traces", str(traces), "-ops", str(ops)],
-                               stdout=fh, stderr=subprocess.PIPE, text=True)
-        if p.returncode != 0:
-            raise vlib.MachineryError("localbuf-drive failed: " + p.stderr[-2000:])
         lines = open(tfile).read().splitlines()
-        t = vlib.tlc("localbuf", "LocalBufferTrace", "LocalBufferTrace.cfg", workers=1, files={"trace.ndjson": tfile},
-                     scratch=sc, timeout=3000, heap="8g")
+        t = res["trace"]
         if t.error or t.violation:
             raise vlib.MachineryError("LocalBufferTrace: %s %s\n%s" % (t.error, t.violation, t.stdout[-2000:]))
         fin = [i for i in t.infos if isinstance(i, dict) and "drift_events" in i]
